@@ -5,6 +5,7 @@ windows. One case per line:
 Answer: `c <constraint values>` then `i <interactions>` (`f1,f2,..:mult` each).
 -/
 import P3R.Model.AluAir
+import P3R.Model.AluSchedule
 import P3R.Model.Field
 
 open P3R
@@ -16,8 +17,36 @@ def parseVec (s : String) : List F :=
 
 def showVec (l : List F) : String := " ".intercalate (l.map toString)
 
+def chunk13 : Nat → List F → List (List F)
+  | 0, _ => []
+  | _, [] => []
+  | fuel + 1, l => l.take 13 :: chunk13 fuel (l.drop 13)
+
+def showEntry : SchedEntry → String
+  | .op i => s!"O{i}"
+  | .packed f k => s!"P{f}:{k}"
+  | .sep => "S"
+
+/-- `sched <lanes> <kmax> | <13 values per op>`: the schedule and the scheduled preprocessed rows. -/
+def handleSched (lanes kmax : Nat) (vals : List F) : List String :=
+  let preps := chunk13 (vals.length + 1) vals
+  let sched := match computeSchedule preps lanes kmax with
+    | some s => s
+    | none => (List.range preps.length).map SchedEntry.op
+  let rows := scheduledPrepRows preps lanes kmax sched
+  let rows := (rows.reverse.dropWhile fun r => r.all (· == 0)).reverse
+  [s!"s {" ".intercalate (sched.map showEntry)}",
+   s!"m {rows.length} {" ; ".intercalate (rows.map showVec)}"]
+
 def handle (line : String) : List String :=
   match line.trimAscii.toString.splitOn "|" with
+  | [hd, vals] =>
+    match (hd.trimAscii.toString.splitOn " ").filter (· ≠ "") with
+    | ["sched", lanes, kmax] =>
+      match lanes.toNat?, kmax.toNat? with
+      | some lanes, some kmax => if lanes == 0 || kmax < 2 then ["bad-op"] else handleSched lanes kmax (parseVec vals)
+      | _, _ => ["bad-op"]
+    | _ => ["bad-op"]
   | [hd, ml, mn, pl, pn] =>
     match (hd.trimAscii.toString.splitOn " ").filter (· ≠ "") with
     | ["alu", d, lanes, kmax, kind, w] =>
